@@ -161,6 +161,9 @@ func (c *Cache) refresh() error {
 		devPrio, oldPrio := devSpec.GetPriority(), oldSpec.GetPriority()
 		switch {
 		case devPrio > oldPrio:
+			// a higher priority definition overrides lower priority
+			// ones, including any conflict among them
+			delete(conflicts, name)
 			return false
 		case devPrio == oldPrio:
 			devPath, oldPath := devSpec.GetPath(), oldSpec.GetPath()
